@@ -24,6 +24,8 @@ THEOREMS = {
     "C16_batch_shape": "every reachable batch of m*k plates gives each sample 0 or exactly k plates",
     "C16_batch_ends_at_boundary": "if nothing is eligible in a reachable state, no sample is incomplete (each has 0 or k)",
     "C16_multi_sample_refused": "a plate with a number of distinct samples other than one anywhere in batch or remaining makes the policy refuse (ValueError)",
+    "C16_single_sample_accepted": "if every plate in batch and remaining has exactly one sample the policy does not refuse",
+    "C16_select_args": "select_next_plate passes the screen plates whose id is in the batch ids, and the unobserved plates whose id is not",
     "C16_select_next_is_a_step": "what select_next_plate passes to the policy and returns is one step of a selection history (returned plate is eligible, unobserved, not in the batch)",
     "C16_select_next_reachable": "every state produced by iterating select_next_plate from the empty batch is a reachable state of the history relation",
 }
@@ -128,7 +130,7 @@ def _plates(rng, single=True):
 
 
 def gen(rng, tier):
-    n_hist = 260 if tier == "quick" else 4000
+    n_hist = 600 if tier == "quick" else 8000
     for i in range(n_hist):
         k = rng.choice([1, 2, 2, 3, 3, 4])
         pl = _plates(rng)
@@ -140,7 +142,7 @@ def gen(rng, tier):
         else:
             observed = [rng.random() < 0.2 for _ in pl]
             yield dict(kind="select", k=k, plates=pl, observed=observed, choices=choices[:stop], sseed=rng.randrange(1 << 30))
-    for _ in range(160 if tier == "quick" else 2500):
+    for _ in range(300 if tier == "quick" else 4000):
         k = rng.choice([1, 2, 2, 3, 3, 4])
         pl = _plates(rng)
         multi = rng.random() < 0.3
